@@ -142,9 +142,15 @@ def stepTargetDepth (d : DState) (target : Option Nat) : Nat :=
   | some id => (alookup d.lastCallDepths id).getD d.lastCallDepth
   | none => d.lastCallDepth
 
+/-- `thread_id.or(state.current_thread)`. -/
+def orCurrent (d : DState) (thread : Option Nat) : Option Nat :=
+  match thread with
+  | some t => some t
+  | none => d.currentThread
+
 /-- The common tail of the three step arms of `apply_action`. -/
 def armStep (d : DState) (thread : Option Nat) (kind : StepKind) (depth : Nat) (started : Bool) : DState :=
-  let target := match thread with | some t => some t | none => d.currentThread
+  let target := orCurrent d thread
   let key := target.getD 0
   { d with steps := [(key, { kind := kind, targetDepth := depth, started := started })],
            mode := .running, pendingStop := none, targetThread := target }
@@ -163,10 +169,10 @@ def applyAction (d : DState) (a : Action) : DState × Outcome × Bool :=
   | .stepIn thread =>
     (armStep d thread .into d.lastCallDepth stepStarted, .applied, true)
   | .stepOver thread =>
-    let target := match thread with | some t => some t | none => d.currentThread
+    let target := orCurrent d thread
     (armStep d thread .over (stepTargetDepth d target) stepStarted, .applied, true)
   | .stepOut thread =>
-    let target := match thread with | some t => some t | none => d.currentThread
+    let target := orCurrent d thread
     (armStep d thread .out (stepTargetDepth d target - 1) stepStarted, .applied, true)
 
 /-- `DebugControl::pause_entry`. -/
@@ -235,6 +241,13 @@ def stepKey (d : DState) : Option Nat :=
                else if acontains d.steps 0 then some 0 else none
   | none => if acontains d.steps 0 then some 0 else none
 
+/-- `should_pause = match step.kind { Into => true, Over | Out => call_depth <= step.target_depth }`. -/
+def StepState.pausesAt (st : StepState) (depth : Nat) : Bool :=
+  match st.kind with
+  | .into => true
+  | .over => decide (depth ≤ st.targetDepth)
+  | .out => decide (depth ≤ st.targetDepth)
+
 /-- The step part of the `Running` block: arm an unstarted step, or decide whether a started one
 pauses here (and remove it).  Returns the new state and `should_pause`. -/
 def stepCheck (d : DState) (depth : Nat) : DState × Bool :=
@@ -246,12 +259,8 @@ def stepCheck (d : DState) (depth : Nat) : DState × Bool :=
     | some st =>
       if !st.started then
         ({ d with steps := ainsert d.steps k { st with started := true } }, false)
-      else
-        let sp := match st.kind with
-          | .into => true
-          | .over => decide (depth ≤ st.targetDepth)
-          | .out => decide (depth ≤ st.targetDepth)
-        if sp then ({ d with steps := aerase d.steps k }, true) else (d, false)
+      else if st.pausesAt depth then ({ d with steps := aerase d.steps k }, true)
+      else (d, false)
 
 /-- The `if let (DebugMode::Running, Some(location)) = (effective_mode, location)` block. -/
 def runningBlock (d : DState) (tgt : Bool) (loc : Loc) (depth : Nat) (ctx : Bool) : DState :=
@@ -267,18 +276,26 @@ def runningBlock (d : DState) (tgt : Bool) (loc : Loc) (depth : Nat) (ctx : Bool
         .breakpoint (some loc) (some g)
     | none => d2
 
-/-- `on_statement_inner` from the lock acquisition up to (not including) the wait loop. -/
-def hookEntry (d : DState) (loc : Option Loc) (depth : Nat) (ctx : Bool) : DState :=
-  let d1 := { d with lastLocation := loc, lastCallDepth := depth,
-                     lastCallDepths := match d.currentThread with
-                       | some t => ainsert d.lastCallDepths t depth
-                       | none => d.lastCallDepths }
-  let tgt := isTarget d1
+/-- The bookkeeping at the top of `on_statement_inner` (`last_location`, `last_call_depth`,
+`last_call_depths[current_thread]`). -/
+def recordHook (d : DState) (loc : Option Loc) (depth : Nat) : DState :=
+  { d with lastLocation := loc, lastCallDepth := depth,
+           lastCallDepths := match d.currentThread with
+             | some t => ainsert d.lastCallDepths t depth
+             | none => d.lastCallDepths }
+
+/-- `on_statement_inner` after the bookkeeping, up to (not including) the wait loop; `tgt` is the
+value of `is_target_thread` computed once at the top. -/
+def hookBody (d1 : DState) (tgt : Bool) (loc : Option Loc) (depth : Nat) (ctx : Bool) : DState :=
   let d2 := consumePending d1 tgt loc
   let eff := if tgt then d2.mode else .running
   match eff, loc with
   | .running, some l => runningBlock d2 tgt l depth ctx
   | _, _ => d2
+
+/-- `on_statement_inner` from the lock acquisition up to (not including) the wait loop. -/
+def hookEntry (d : DState) (loc : Option Loc) (depth : Nat) (ctx : Bool) : DState :=
+  hookBody (recordHook d loc depth) (isTarget (recordHook d loc depth)) loc depth ctx
 
 /-- One iteration of the wait loop of `on_statement_inner`: the new state and whether the hook
 returns (`true`) or calls `cvar.wait` (`false`). -/
@@ -408,6 +425,18 @@ def Label.isStepAct {W : Type} : Label W → Bool
   | .act a => a.isStep
   | _ => false
 
+def Item.depth : Item → Nat
+  | .stmt _ d _ => d
+  | _ => 0
+
+/-- Stop notifications produced along a run, each paired with the call depth of the statement the
+cycle thread is at (entering, or parked in) when the notification is produced. -/
+def stopEvents {M W : Type} (p : Prog M W) (s : Sys M W) : List (Label W) → List (Stop × Nat)
+  | [] => []
+  | l :: ls =>
+    ((step p s l).d.stops.drop s.d.stops.length).map (fun st => (st, (p.item s.pc).depth))
+      ++ stopEvents p (step p s l) ls
+
 /-! ## Second layer: the DAP adapter's stop filter (crates/trust-debug/src/adapter/stop.rs) -/
 
 /-- `StopCoordinator::should_emit_stop` as a pure function of the stop, the `pause_expected` flag
@@ -427,49 +456,53 @@ def shouldEmitStop (st : Stop) (pauseExpected : Bool) (gens : List (Nat × Nat))
       | some g => (decide (alookup gens l.file = some g), false)
 
 /-- Adapter + runtime, abstracted to what matters for "is the client told about a parked runtime":
-the monitor state, whether the cycle thread is parked, the stop channel (FIFO), the
-`pause_expected` flag and the `stopped` events written to the client. -/
+the monitor state, whether (and where) the cycle thread is parked, the stop channel (FIFO), the
+`pause_expected` flag, the `stopped` events written to the client, and what the client believes
+(`clientStopped`: it received a `stopped` event after its last continue/step request). -/
 structure ASys where
   d : DState
   parked : Bool
+  parkLoc : Option Loc
   chan : List Stop
   pauseExpected : Bool
   emitted : List Stop
+  clientStopped : Bool
 deriving DecidableEq, Repr
 
 inductive ALabel
   /-- the cycle thread calls the hook (from outside the monitor) -/
   | hook (loc : Option Loc) (depth : Nat)
   /-- the parked cycle thread wakes up -/
-  | wake (loc : Option Loc)
+  | wake
   /-- DAP `pause` (`handle_pause`) -/
   | reqPause
   /-- DAP `continue` (`handle_continue`) -/
   | reqContinue
-  /-- DAP `next` / `stepIn` / `stepOut` -/
+  /-- DAP `next` / `stepIn` / `stepOut` (`handle_next`, `handle_step_in`, `handle_step_out`) -/
   | reqStep (a : Action)
   /-- DAP `setBreakpoints` for one file -/
   | reqSetBps (file : Nat) (bps : List Bp)
-  /-- the coordinator thread takes one stop from the channel -/
+  /-- the coordinator thread takes one stop from the channel (`StopCoordinator::spawn` loop body) -/
   | coord
 deriving DecidableEq, Repr
 
 def astep (s : ASys) : ALabel → ASys
   | .hook loc depth =>
     if s.parked then s else
-    let before := s.d.stops.length
     let r := onStatement s.d loc depth false
-    { s with d := r.1, parked := !r.2, chan := s.chan ++ r.1.stops.drop before }
-  | .wake loc =>
+    { s with d := r.1, parked := !r.2, parkLoc := loc, chan := s.chan ++ r.1.stops.drop s.d.stops.length }
+  | .wake =>
     if !s.parked then s else
-    let before := s.d.stops.length
-    let r := hookLoop s.d loc
-    { s with d := r.1, parked := !r.2, chan := s.chan ++ r.1.stops.drop before }
+    let r := hookLoop s.d s.parkLoc
+    { s with d := r.1, parked := !r.2, chan := s.chan ++ r.1.stops.drop s.d.stops.length }
   | .reqPause =>
+    -- `if matches!(mode(), Paused) { "pause ignored" } else { pause_expected = true; pause() }`
     if s.d.mode == .paused then s
     else { s with pauseExpected := true, d := (applyAction s.d (.pause none)).1 }
-  | .reqContinue => { s with pauseExpected := false, d := (applyAction s.d .continue_).1 }
-  | .reqStep a => if a.isStep then { s with d := (applyAction s.d a).1 } else s
+  | .reqContinue =>
+    { s with pauseExpected := false, d := (applyAction s.d .continue_).1, clientStopped := false }
+  | .reqStep a =>
+    if a.isStep then { s with d := (applyAction s.d a).1, clientStopped := false } else s
   | .reqSetBps file bps => { s with d := setBreakpointsForFile s.d file bps }
   | .coord =>
     match s.chan with
@@ -477,13 +510,25 @@ def astep (s : ASys) : ALabel → ASys
     | st :: rest =>
       let r := shouldEmitStop st s.pauseExpected s.d.bpGeneration
       { s with chan := rest, pauseExpected := r.2,
-               emitted := if r.1 then s.emitted ++ [st] else s.emitted }
+               emitted := if r.1 then s.emitted ++ [st] else s.emitted,
+               clientStopped := s.clientStopped || r.1 }
 
 def aexec (s : ASys) : List ALabel → ASys
   | [] => s
   | l :: ls => aexec (astep s l) ls
 
 def ASys.init : ASys :=
-  { d := DState.init, parked := false, chan := [], pauseExpected := false, emitted := [] }
+  { d := DState.init, parked := false, parkLoc := none, chan := [], pauseExpected := false,
+    emitted := [], clientStopped := false }
+
+/-- The cycle thread is parked for good: a wake-up would leave it parked and announce nothing, and
+the coordinator has nothing left to process. -/
+def ASys.quiescentParked (s : ASys) : Bool :=
+  s.parked && s.chan.isEmpty && decide (hookLoop s.d s.parkLoc = (s.d, false))
+
+/-- "Every runtime stop is either emitted or followed by a resume", as a state predicate: when the
+cycle thread is parked for good, the client has been told (a `stopped` event after its last
+continue/step request). -/
+def ASys.told (s : ASys) : Bool := !s.quiescentParked || s.clientStopped
 
 end TrustVerif.C17
